@@ -748,16 +748,28 @@ def stream_call(ctx, name, args):
 OHB_READ_SHAPE = None
 
 
-def shape(n):
-    """structure-only rendering of an AST subtree (kinds, opcodes, names, literal values)"""
+def shape(n, loc=None):
+    """structure-only rendering of an AST subtree (kinds, opcodes, names, literal values), insensitive to what cannot change the
+    meaning: redundant parentheses, braces around a single statement, comments, the names of local variables (numbered in order of
+    appearance), explicit `this->`"""
+    loc = {} if loc is None else loc
     k = n.get('kind')
+    inner = [c for c in n.get('inner', []) if c.get('kind') not in ('FullComment', 'ParagraphComment', 'TextComment')]
+    if k == 'ParenExpr' and len(inner) == 1:
+        return shape(inner[0], loc)
+    if k == 'CompoundStmt' and len(inner) == 1:
+        return shape(inner[0], loc)
     s = k
     for key in ('opcode', 'name', 'value', 'castKind'):
         if key in n:
-            s += ':' + str(n[key])
+            v = n[key]
+            if key == 'name' and k == 'VarDecl':
+                v = loc.setdefault(n.get('id'), 'v%d' % len(loc))
+            s += ':' + str(v)
     if 'referencedDecl' in n:
-        s += '@' + str(n['referencedDecl'].get('name'))
-    ch = [shape(c) for c in n.get('inner', [])]
+        rd = n['referencedDecl']
+        s += '@' + str(loc.get(rd.get('id'), rd.get('name')) if rd.get('kind') == 'VarDecl' else rd.get('name'))
+    ch = [shape(c, loc) for c in inner]
     return s + ('(' + ','.join(ch) + ')' if ch else '')
 
 
@@ -779,7 +791,8 @@ def ohb_read(ctx, meth):
             continue
     if k0 is None or k0 == 0:
         raise Unsupported('ObjectHeaderBase::read shape')
-    h = hashlib.sha256(''.join(shape(b) for b in body[:k0]).encode()).hexdigest()
+    loc = {}
+    h = hashlib.sha256(''.join(shape(b, loc) for b in body[:k0]).encode()).hexdigest()
     ctx.m.ohb_loop_hash = h
     return [('sync',)] + rest
 
